@@ -37,8 +37,22 @@ void harness(void) {
 #elif defined(VF_FN_mult_digit)
 	e = bn_mult_digit(a, d);
 #elif defined(VF_FN_div)
+	/* -DVF_DIV_FORM: 0 separate remainder, 1 remainder NULL, 2 remainder == bn, 3 bn == d (with NULL
+	 * or bn as remainder); -DVF_DIV_MAXCOUNT bounds the capacity of the dividend below BN_MAX_DIGITS
+	 * (the capacity test of bn_div compares bn->count, not BN_MAX_DIGITS, with bn->digits) */
 	VF_ASSUME(R.count >= 1 && R.count <= BN_MAX_DIGITS && R.digits <= R.count);
-	e = bn_div(a, b, ((sel & 6) == 0) ? &R : (((sel & 6) == 2) ? NULL : a));
+#ifdef VF_DIV_MAXCOUNT
+	VF_ASSUME(A.count <= VF_DIV_MAXCOUNT && B.digits <= VF_DIV_MAXCOUNT);
+#endif
+#if VF_DIV_FORM == 0
+	e = bn_div(&A, &B, &R);
+#elif VF_DIV_FORM == 1
+	e = bn_div(&A, &B, NULL);
+#elif VF_DIV_FORM == 2
+	e = bn_div(&A, &B, &A);
+#else
+	e = bn_div(&A, &A, (sel & 2) ? NULL : &A);
+#endif
 #else
 #error "select a function with -DVF_FN_<name>"
 #endif
